@@ -89,6 +89,9 @@ def handle (op : String) (args res : List String) : Option Verdict :=
       let step (st : Option (Dy × Dy)) (tok : String) : Option (Dy × Dy) :=
         st.bind fun (v, m) =>
           if tok.startsWith "a:" then (parseF (String.ofList (tok.toList.drop 2))).map fun y => (Dy.add v y.toDy, Dy.add m (Dy.abs y.toDy))
+          else if tok.startsWith "s:" then (parseF (String.ofList (tok.toList.drop 2))).map fun y => (y.toDy, Dy.abs y.toDy)
+          else if tok.startsWith "d:" then (parseF (String.ofList (tok.toList.drop 2))).map fun y => (Dy.sub v y.toDy, Dy.add m (Dy.abs y.toDy))
+          else if tok == "c" || tok.startsWith "q:" || tok.startsWith "r:" then some (v, m)   -- copy / const queries: state unchanged
           else if tok == "n" then some (Dy.neg v, m)
           else if tok.startsWith "i:" then ((String.ofList (tok.toList.drop 2)).toInt?).map fun n => (Dy.mul v (Dy.ofInt n), Dy.mul m (Dy.ofInt n.natAbs))
           else if tok.startsWith "m:" then (parseF (String.ofList (tok.toList.drop 2))).map fun y => (Dy.mul v y.toDy, Dy.mul m (Dy.abs y.toDy))
